@@ -395,3 +395,139 @@ Qed.
 Lemma g3_Cipher_negative_offset_panics :
   g3_Cipher (mk_slice 0 0 1 1) [1; 2; 3; 4] (-1) (mk_world [[7]] []) = Panic.
 Proof. vm_compute. reflexivity. Qed.
+
+(* ================================================================== close bodies (frame.go, read.go) *)
+Lemma be16_z c : (c < 65536)%N -> be_bytes_z 2 (Z.of_N c) = zb (be_bytes 2 c).
+Proof.
+  intros H. unfold be_bytes_z. cbn [le_bytes_z rev app be_bytes zb map].
+  change (256 ^ N.of_nat 1)%N with 256%N. change (256 ^ N.of_nat 0)%N with 1%N.
+  rewrite N.div_1_r. rewrite !N2Z.inj_mod, N2Z.inj_div. reflexivity.
+Qed.
+Lemma be_val_z_2 a b : be_val_z [Z.of_N a; Z.of_N b] = Z.of_N (be_val [a; b]).
+Proof. cbn [be_val_z be_val length]. unfold len. cbn [length]. change (256 ^ N.of_nat 1)%N with 256%N.
+  change (256 ^ N.of_nat 0)%N with 1%N. change (256 ^ Z.of_nat 1) with 256. change (256 ^ Z.of_nat 0) with 1. lia. Qed.
+
+(* ParseCloseFrameData / ParseCloseFrameDataUnsafe: total, the world is not changed *)
+Definition parse_close_z (p : list N) : Z * list Z := (Z.of_N (fst (parse_close p)), zb (snd (parse_close p))).
+
+Lemma parse_close_body w s p :
+  sl_valid w s -> sl_bytes w s = zb p ->
+  (if sl_len s <? 2 then ret (0, [])
+   else (t1 <- m_get_uint true 2 s;; t2 <- m_slice s 2 (sl_len s);; t3 <- m_bytes t2;; ret (t1, t3))%gomem) w
+  = Ok (parse_close_z p, w).
+Proof.
+  intros Hv Hp. pose proof (sl_bytes_length w s Hv) as HL. rewrite Hp, zb_length in HL.
+  pose proof Hv as (Ha & Ho & Hl & Hc).
+  destruct p as [|a [|b r]]; cbn [length] in HL.
+  - replace (sl_len s <? 2) with true by lia. reflexivity.
+  - replace (sl_len s <? 2) with true by lia. reflexivity.
+  - replace (sl_len s <? 2) with false by lia.
+    erewrite mbind_ok by (apply m_get_uint_ok; lia). rewrite Hp. cbn [zb map firstn]. rewrite be_val_z_2.
+    erewrite mbind_ok by (apply m_slice_ok; lia).
+    unfold m_bytes at 1. unfold mbind at 1. cbv [ret]. f_equal. f_equal. unfold parse_close_z. cbn [parse_close fst snd].
+    f_equal.
+    rewrite (sl_bytes_sub w s (mk_slice (sl_arr s) (sl_off s + 2) (sl_len s - 2) (sl_cap s - 2)) 2 Hv eq_refl eq_refl) by (cbn [sl_len]; lia). cbn [sl_len]. rewrite Hp.
+    change (Z.to_nat 2) with 2%nat. cbn [zb map skipn]. fold (zb r). apply firstn_all2. rewrite zb_length. lia.
+Qed.
+
+Theorem g3_ParseCloseFrameData_ok w s p : sl_valid w s -> sl_bytes w s = zb p ->
+  g3_ParseCloseFrameData s w = Ok (parse_close_z p, w).
+Proof. intros Hv Hp. unfold g3_ParseCloseFrameData. cbv zeta. exact (parse_close_body w s p Hv Hp). Qed.
+Theorem g3_ParseCloseFrameDataUnsafe_ok w s p : sl_valid w s -> sl_bytes w s = zb p ->
+  g3_ParseCloseFrameDataUnsafe s w = Ok (parse_close_z p, w).
+Proof. intros Hv Hp. unfold g3_ParseCloseFrameDataUnsafe. cbv zeta. exact (parse_close_body w s p Hv Hp). Qed.
+
+(* PutCloseFrameBody(p, code, reason): documented to panic when p is shorter than 2+len(reason); otherwise
+   p = code (big endian) ++ reason ++ the old bytes of p from 2+len(reason) on *)
+Theorem g3_PutCloseFrameBody_ok w s code reason :
+  sl_valid w s -> (code < 65536)%N -> 2 + Z.of_nat (length reason) <= sl_len s -> sl_len s <= max_int ->
+  g3_PutCloseFrameBody s (Z.of_N code) (zb reason) w =
+  Ok (tt, sl_put w s (zb (be_bytes 2 code ++ reason) ++ skipn (2 + length reason) (sl_bytes w s))).
+Proof.
+  unfold max_int. intros Hv Hc Hl Hmax. pose proof (sl_bytes_length w s Hv) as HL.
+  pose proof Hv as (Ha & Ho & Hl' & Hcap).
+  unfold g3_PutCloseFrameBody. rewrite go_len_zb. rewrite wrap_s64_id by lia.
+  erewrite mbind_ok by (apply m_index_ok; [exact Hv|lia]).
+  erewrite mbind_ok by (apply m_put_uint_ok; lia). rewrite be16_z by exact Hc.
+  set (cur := sl_bytes w s) in *.
+  rewrite (sl_blit_put w s 0 _ Hv) by (rewrite ?go_len_zb; cbn [be_bytes length]; lia). fold cur.
+  set (cur1 := list_blit cur (Z.to_nat 0) (zb (be_bytes 2 code))).
+  assert (E1 : cur1 = zb (be_bytes 2 code) ++ skipn 2 cur).
+  { subst cur1. unfold list_blit. cbn [Z.to_nat firstn app be_bytes zb map length Nat.add]. reflexivity. }
+  assert (L1 : length cur1 = length cur).
+  { subst cur1. apply list_blit_length. cbn [be_bytes zb map length Z.to_nat]. lia. }
+  set (w1 := sl_put w s cur1).
+  assert (Hv1 : sl_valid w1 s) by (subst w1; apply sl_valid_put; [assumption|unfold go_len; lia|assumption]).
+  assert (Hb1 : sl_bytes w1 s = cur1) by (subst w1; apply sl_bytes_put; [assumption|unfold go_len; lia]).
+  erewrite mbind_ok by (apply m_slice_ok; lia).
+  unfold m_copy_list at 1. unfold mbind at 1. cbv [ret]. f_equal. f_equal.
+  cbn [sl_len]. rewrite go_len_zb. replace (Z.min (sl_len s - 2) (Z.of_nat (length reason))) with (Z.of_nat (length reason)) by lia.
+  rewrite Nat2Z.id. rewrite firstn_all2 by (rewrite zb_length; lia).
+  rewrite (sl_blit_sub w1 s (mk_slice (sl_arr s) (sl_off s + 2) (sl_len s - 2) (sl_cap s - 2)) 2 0 _ eq_refl eq_refl).
+  rewrite (sl_blit_put w1 s (2 + 0) _ Hv1) by (rewrite ?go_len_zb; lia).
+  rewrite Hb1. subst w1. rewrite sl_put_put; [|assumption|unfold go_len; lia|].
+  - f_equal. rewrite E1. unfold list_blit. rewrite zb_app. rewrite <- app_assoc. 
+    change (Z.to_nat (2 + 0)) with (length (zb (be_bytes 2 code))). rewrite firstn_app_exact. f_equal. f_equal.
+    rewrite zb_length. rewrite <- (zb_length (be_bytes 2 code)). rewrite skipn_app_plus. rewrite zb_length.
+    rewrite skipn_skipn_add. reflexivity.
+  - unfold go_len. rewrite list_blit_length; [lia|]. rewrite zb_length. lia.
+Qed.
+
+(* a put over a whole, freshly made array *)
+Lemma sl_put_fresh h out c bs n : Z.of_nat (length c) = n -> Z.of_nat (length bs) = n ->
+  sl_put (mk_world (h ++ [c]) out) (mk_slice (length h) 0 n n) bs = mk_world (h ++ [bs]) out.
+Proof.
+  intros Ec Eb. unfold sl_put, sl_blit. cbn [w_heap w_out sl_arr sl_off]. f_equal.
+  unfold heap_set. rewrite firstn_app_exact. f_equal. unfold arr_of. cbn [w_heap].
+  rewrite nth_app_exact. unfold list_blit. cbn [Z.to_nat Z.add firstn app Nat.add].
+  rewrite skipn_all2 by lia. rewrite app_nil_r. f_equal.
+  replace (S (length h)) with (length h + 1)%nat by lia. rewrite skipn_app_plus. reflexivity.
+Qed.
+
+(* NewCloseFrameBody: a NEW array holding code ++ the first 123 bytes of the reason; older memory untouched *)
+Theorem g3_NewCloseFrameBody_ok w code reason :
+  (code < 65536)%N -> Z.of_nat (length reason) + 2 <= max_int ->
+  g3_NewCloseFrameBody (Z.of_N code) (zb reason) w =
+  Ok (mk_slice (length (w_heap w)) 0 (Z.of_nat (length (new_close_body code reason))) (Z.of_nat (length (new_close_body code reason))),
+      mk_world (w_heap w ++ [zb (new_close_body code reason)]) (w_out w)).
+Proof.
+  unfold max_int. intros Hc Hr. unfold g3_NewCloseFrameBody, g3_min. rewrite !go_len_zb.
+  rewrite wrap_s64_id by lia. set (lr := Z.of_nat (length reason)) in *.
+  set (n := if 2 + lr <? 125 then 2 + lr else 125).
+  assert (Hn : Z.of_nat (length (new_close_body code reason)) = n).
+  { unfold new_close_body. rewrite app_length, firstn_length. cbn [be_bytes length]. subst n lr.
+    unfold byte in *. destruct (2 + Z.of_nat (length reason) <? 125) eqn:E; lia. }
+  rewrite Hn.
+  replace ((if 2 + lr <? 125 then ret (2 + lr) else ret 125) : M Z) with (ret n : M Z) by (subst n; destruct (2 + lr <? 125); reflexivity).
+  rewrite mbind_ret. cbv zeta.
+  unfold m_make at 1. unfold mbind at 1. replace ((0 <=? n) && (n <=? 9223372036854775807)) with true by (subst n; destruct (2 + lr <? 125); lia).
+  set (crop := if 123 <? lr then 123 else lr).
+  replace ((if 123 <? lr then ret 123 else ret lr) : M Z) with (ret crop : M Z) by (subst crop; destruct (123 <? lr); reflexivity).
+  rewrite mbind_ret.
+  unfold go_slice. rewrite go_len_zb. fold lr.
+  replace ((0 <=? 0) && (0 <=? crop) && (crop <=? lr)) with true by (subst crop; destruct (123 <? lr) eqn:E; lia).
+  rewrite mbind_lift_ok. cbn [skipn Z.to_nat]. replace (Z.to_nat (crop - 0)) with (Z.to_nat crop) by lia.
+  rewrite <- zb_firstn.
+  set (w1 := mk_world (w_heap w ++ [repeat 0 (Z.to_nat n)]) (w_out w)).
+  set (s := mk_slice (length (w_heap w)) 0 n n).
+  assert (Hcrop : length (firstn (Z.to_nat crop) reason) = Z.to_nat crop).
+  { rewrite firstn_length. subst crop lr. destruct (123 <? Z.of_nat (length reason)) eqn:E; lia. }
+  assert (Hnc : n = 2 + crop) by (subst n crop; destruct (2 + lr <? 125) eqn:E1; destruct (123 <? lr) eqn:E2; lia).
+  assert (Hv1 : sl_valid w1 s).
+  { subst w1 s. unfold sl_valid, arr_of. cbn [w_heap sl_arr sl_off sl_len sl_cap]. rewrite app_length. cbn [length].
+    rewrite nth_app_exact, repeat_length. lia. }
+  assert (Hcrop0 : 0 <= crop <= 123) by (subst crop lr; destruct (123 <? Z.of_nat (length reason)) eqn:E; lia).
+  erewrite mbind_ok.
+  2:{ apply g3_PutCloseFrameBody_ok; [exact Hv1|exact Hc| |]; unfold max_int; subst s; cbn [sl_len]; unfold byte in *; lia. }
+  cbv [ret]. f_equal. f_equal. subst w1 s. 
+  assert (Hb : sl_bytes (mk_world (w_heap w ++ [repeat 0 (Z.to_nat n)]) (w_out w)) (mk_slice (length (w_heap w)) 0 n n) = repeat 0 (Z.to_nat n)).
+  { unfold sl_bytes, arr_of. cbn [w_heap sl_arr sl_off sl_len Z.to_nat skipn]. rewrite nth_app_exact.
+    apply firstn_all2. rewrite repeat_length. lia. }
+  rewrite Hb. rewrite skipn_all2 by (rewrite repeat_length; lia). rewrite app_nil_r.
+  rewrite sl_put_fresh.
+  - unfold new_close_body. do 4 f_equal. subst crop lr. 
+    destruct (123 <? Z.of_nat (length reason)) eqn:E; [reflexivity|].
+    rewrite Nat2Z.id. unfold byte in *. rewrite !firstn_all2 by lia. reflexivity.
+  - rewrite repeat_length. lia.
+  - rewrite zb_length, app_length. cbn [be_bytes length]. unfold byte in *. lia.
+Qed.
